@@ -61,6 +61,8 @@ pub static C01: E1Prop = E1Prop {
     tape_len: 600,
     assumptions: &[],
     extra: None,
+    exclude: None,
+    raw_oracle: None,
 };
 
 pub static C02: E1Prop = E1Prop {
@@ -74,6 +76,8 @@ pub static C02: E1Prop = E1Prop {
     tape_len: 600,
     assumptions: &["N erases exactly the differences the property allows; `(f())` / `(...)` are kept only in multi-value positions"],
     extra: None,
+    exclude: None,
+    raw_oracle: None,
 };
 
 pub static C03: E1Prop = E1Prop {
@@ -87,6 +91,8 @@ pub static C03: E1Prop = E1Prop {
     tape_len: 600,
     assumptions: &[],
     extra: None,
+    exclude: None,
+    raw_oracle: None,
 };
 
 pub static C06: E1Prop = E1Prop {
@@ -100,6 +106,8 @@ pub static C06: E1Prop = E1Prop {
     tape_len: 600,
     assumptions: &[],
     extra: None,
+    exclude: None,
+    raw_oracle: None,
 };
 
 fn gen_c04(t: &mut Tape, l: &mut Vec<&'static str>) -> Option<Case> {
@@ -117,6 +125,8 @@ pub static C04: E1Prop = E1Prop {
     tape_len: 600,
     assumptions: &["digits are represented by 0, 1, 9 (both regular expressions of the quote rewrite treat all digits alike)", "an unknown escape `\\c` denotes `c` (Lua 5.1 rule, which full_moon accepts in every syntax)"],
     extra: Some(crate::enums::c04_extra),
+    exclude: None,
+    raw_oracle: None,
 };
 
 fn gen_none(_t: &mut Tape, _l: &mut Vec<&'static str>) -> Option<Case> {
@@ -137,6 +147,8 @@ pub static C05: E1Prop = E1Prop {
     tape_len: 8,
     assumptions: &["comments are absent from the enumerated programs (C03 covers comments on removed parentheses)"],
     extra: Some(crate::enums::c05_extra),
+    exclude: None,
+    raw_oracle: None,
 };
 
 fn gen_c08(t: &mut Tape, l: &mut Vec<&'static str>) -> Option<Case> {
@@ -154,6 +166,8 @@ pub static C08: E1Prop = E1Prop {
     tape_len: 600,
     assumptions: &["sort_requires is off (its interaction with ignore regions is the listed finding KF-C08-sort-ignore-region)", "a directive counts when a line of a leading comment, trimmed, equals the directive (README + context.rs)"],
     extra: None,
+    exclude: None,
+    raw_oracle: None,
 };
 
 fn gen_c09(t: &mut Tape, l: &mut Vec<&'static str>) -> Option<Case> {
@@ -270,21 +284,17 @@ fn typed_local_cut_by_range(case: &Case) -> bool {
 
 pub static C09: E1Prop = E1Prop {
     id: "C09",
-    oracle: |c, o, _| {
-        let v = oracle::c09(c, o);
-        if v.is_fail() && typed_local_cut_by_range(c) {
-            return Verdict::Skip("KF-C09-typed-local-span");
-        }
-        v
-    },
+    oracle: |c, o, _| oracle::c09(c, o),
     rule: "T1: generated programs x ranges derived from the statement spans of the trusted parse (exactly one statement at any depth, a run of statements, mid-token, nudged by 0-4 bytes, open-ended on either side, empty / inverted, whole file, random offsets). Oracle: statements are classified inside / outside by the documented rule (a statement ending exactly one byte past the end bound is left unclaimed: README and implementation disagree there); (1) the text before the first and after the last affected statement is unchanged, (2) every outside statement keeps its source text piecewise around affected descendants, located at the same semantic-token position, (3) every outermost inside statement has the same text as in a whole-file run (aligned through the token sequence T), (4) if no statement is inside, the text up to the last token is unchanged. Non-trivial: at least one statement inside and one outside, the inside one compared against the whole-file run, and the output differs from the input.",
     gen_case: gen_c09,
     quick_cases: 120_000,
     thorough_cases: 2_000_000,
     use_t0: false,
     tape_len: 600,
-    assumptions: &["sort_requires off and no ignore directives (their interplay with ranges is outside the statement of C09)", "the EOF trivia is only claimed unchanged when the text after the last affected statement contains a further token"],
+    assumptions: &["no ignore directives (their interplay with ranges is outside the statement of C09)", "the EOF trivia is only claimed unchanged when the text after the last affected statement contains a further token"],
     extra: None,
+    exclude: Some(|c| if typed_local_cut_by_range(c) { Some("KF-C09-node-end-position") } else { None }),
+    raw_oracle: None,
 };
 
 fn gen_c12(t: &mut Tape, l: &mut Vec<&'static str>) -> Option<Case> {
@@ -307,6 +317,8 @@ pub static C12: E1Prop = E1Prop {
     tape_len: 300,
     assumptions: &["`-- stylua: ignore start/end` regions are excluded: require sorting does not honour them (known finding KF-C12-ignore-region, DESIGN D20)"],
     extra: None,
+    exclude: Some(|c| if c.cfg.sort_requires && (c.source.contains("stylua: ignore start") || c.source.contains("stylua: ignore end")) { Some("KF-C12-ignore-region") } else { None }),
+    raw_oracle: None,
 };
 
 pub fn e1_prop(id: &str) -> Option<&'static E1Prop> {
@@ -399,6 +411,8 @@ pub static C10: E1Prop = E1Prop {
     tape_len: 600,
     assumptions: &["interior lines of block comments and long strings are content for the indentation rule; string literal contents are exempt from the line-ending rule"],
     extra: None,
+    exclude: None,
+    raw_oracle: None,
 };
 
 // ---------------------------------------------------------------------------------------------
@@ -419,6 +433,8 @@ pub static C11: E1Prop = E1Prop {
     tape_len: 600,
     assumptions: &["programs containing `-- stylua: ignore` are skipped (ignored code is exempt)", "known finding KF-C11-parenthesised-single-argument: inputs with a call whose single argument is wrapped in redundant parentheses are excluded under None/NoSingle*"],
     extra: None,
+    exclude: Some(oracle::c11_known_finding),
+    raw_oracle: None,
 };
 
 // ---------------------------------------------------------------------------------------------
@@ -525,6 +541,8 @@ pub static C07: E1Prop = E1Prop {
         "nesting depth of generated programs is bounded (<= ~12): stack exhaustion at depth ~100 (do-blocks) / ~500 (parentheses) is a recorded finding, observed only in child processes",
     ],
     extra: Some(c07_scaling),
+    exclude: None,
+    raw_oracle: Some(|c, o, t| oracle::c07(c, o, t)),
 };
 
 use crate::oracle::Verdict;
